@@ -359,6 +359,8 @@ def main():
     cfg = props[pid]
     known = load_known()
     os.makedirs(EVID, exist_ok=True); os.makedirs(REPLAY, exist_ok=True)
+    for old in glob.glob(os.path.join(REPLAY, pid + "-*.json")):
+        os.remove(old)          # replay files of earlier runs of this property
     t0 = time.time()
     undecided, violations, known_hits = [], [], []
     notes = []
